@@ -1,6 +1,6 @@
 (* C13 — Every search terminates and standard scans are linear in the haystack. *)
-From DV Require Import Model.Base Model.Nfa Model.BwBuild Model.BwSearch Model.Api Model.Spec
-     Model.Cert Proofs.BwCert.
+From DV Require Import Model.Base Model.Nfa Model.BwBuild Model.BwSearch Model.Utf8 Model.CwBuild Model.Api Model.Spec
+     Model.Cert Proofs.BwCert Proofs.Leftmost Proofs.BwLeftmost Proofs.Utf8Props Proofs.CwCert.
 Local Open Scope N_scope.
 
 (* The model counts every iteration of the transition loop (the [ticks] field threaded through the
@@ -53,6 +53,28 @@ Proof.
           (bw_nosuffix_correct_lemma V veqb Hv A pvs C h Hb). auto.
 Qed.
 Print Assumptions bw_standard_searches_terminate.
+
+(* the leftmost search of a certified byte-wise automaton and the three standard searches of a
+   certified character-wise automaton terminate as well (they return Ok) *)
+Theorem bw_leftmost_search_terminates :
+  forall (V : Type) (veqb : V -> V -> bool), (forall a b, veqb a b = true -> a = b) ->
+  forall (A : bw_automaton V) (pvs : list (list N * V)), bw_lm_cert_ok veqb A pvs = true ->
+  forall h : list N, Forall (fun b => b < 256) h -> is_ok (bw_leftmost_find_iter V A h) = true.
+Proof. intros V veqb Hv A pvs C h Hb. rewrite (bw_leftmost_correct_lemma V veqb Hv A pvs C h Hb). reflexivity. Qed.
+Print Assumptions bw_leftmost_search_terminates.
+
+Theorem cw_standard_searches_terminate :
+  forall (V : Type) (veqb : V -> V -> bool), (forall a b, veqb a b = true -> a = b) ->
+  forall (A : cw_automaton V) (pvs : list (list N * V)), cw_cert_ok veqb A pvs = true ->
+  forall cs : list N, Forall scalar cs ->
+    is_ok (cw_find_iter V A (encode_utf8 cs)) = true /\ is_ok (cw_find_overlapping_iter V A (encode_utf8 cs)) = true
+    /\ is_ok (cw_find_overlapping_no_suffix_iter V A (encode_utf8 cs)) = true.
+Proof.
+  intros V veqb Hv A pvs C cs Hs.
+  rewrite (cw_find_correct_lemma V veqb Hv A pvs C cs Hs), (cw_overlapping_correct_lemma V veqb Hv A pvs C cs Hs),
+          (cw_nosuffix_correct_lemma V veqb Hv A pvs C cs Hs). auto.
+Qed.
+Print Assumptions cw_standard_searches_terminate.
 
 (* Non-vacuity: a^5 / aab: the haystack aaaaxaaaax falls back along the whole fail chain twice;
    the overlapping scan of 10 bytes takes 18 <= 20 iterations. *)
